@@ -24,7 +24,7 @@ import (
 const classChurn = "batcher/subscription-churn"
 
 type churnStep struct {
-	kind byte // 'S' subscribe, 'C' cancel the i-th subscriber alive, 'B' batch + interval
+	kind byte // 'N' subscribe a subscriber that never reads, 'S' subscribe, 'C' cancel the i-th subscriber alive, 'B' batch + interval
 	i    int
 }
 
@@ -88,19 +88,21 @@ func mkChurn(c churn) *mc.Exec {
 		}
 		for _, st := range c.steps {
 			switch st.kind {
-			case 'S':
+			case 'S', 'N':
 				ctx, cancel := mc.CtxWithCancel(context.Background())
 				s := &churnSub{n: len(subs), ch: mc.NewChan[int](), cancel: cancel}
 				subs = append(subs, s)
-				mc.GoNamed(fmt.Sprintf("reader%d", s.n), func() {
-					for {
-						v, ok := s.ch.Recv2()
-						if !ok {
-							return
+				if st.kind == 'S' {
+					mc.GoNamed(fmt.Sprintf("reader%d", s.n), func() {
+						for {
+							v, ok := s.ch.Recv2()
+							if !ok {
+								return
+							}
+							s.got = append(s.got, recv{val: v, at: mc.ModelNow()})
 						}
-						s.got = append(s.got, recv{val: v, at: mc.ModelNow()})
-					}
-				})
+					})
+				}
 				b.Subscribe(ctx, s.ch)
 				s.from = len(all)
 			case 'C':
@@ -190,21 +192,94 @@ func churnScripts(maxLen int) [][]churnStep {
 	return out
 }
 
+// stalledChurnScripts: scripts with exactly ONE subscriber that never reads
+// ('N'): 1..2 values (the scaled buffer) are issued while it is subscribed, it
+// is cancelled — leaving with values still buffered for it — and a prompt
+// subscriber that is alive at the end checks what newcomers and survivors
+// receive afterwards (a newcomer must never see a value issued before its
+// Subscribe returned).
+func stalledChurnScripts(maxLen int) [][]churnStep {
+	var out [][]churnStep
+	type st struct {
+		alive        []byte
+		usedN, nCanc bool
+		valuesWhileN int
+	}
+	var rec func(cur []churnStep, s st)
+	rec = func(cur []churnStep, s st) {
+		prompt := false
+		for _, k := range s.alive {
+			prompt = prompt || k == 'S'
+		}
+		if len(cur) > 0 && s.nCanc && s.valuesWhileN >= 1 && prompt && cur[len(cur)-1].kind != 'B' {
+			out = append(out, append([]churnStep(nil), cur...))
+		}
+		if len(cur) == maxLen {
+			return
+		}
+		if len(s.alive) < 3 {
+			n := s
+			n.alive = append(append([]byte(nil), s.alive...), 'S')
+			rec(append(cur, churnStep{kind: 'S'}), n)
+			if !s.usedN {
+				n := s
+				n.usedN = true
+				n.alive = append(append([]byte(nil), s.alive...), 'N')
+				rec(append(cur, churnStep{kind: 'N'}), n)
+			}
+		}
+		for i, k := range s.alive {
+			n := s
+			n.alive = append(append([]byte(nil), s.alive[:i]...), s.alive[i+1:]...)
+			n.nCanc = s.nCanc || k == 'N'
+			rec(append(cur, churnStep{kind: 'C', i: i}), n)
+		}
+		if len(s.alive) > 0 && (len(cur) == 0 || cur[len(cur)-1].kind != 'B') {
+			n := s
+			for _, k := range s.alive {
+				if k == 'N' {
+					n.valuesWhileN++
+					break
+				}
+			}
+			if n.valuesWhileN <= 2 {
+				rec(append(cur, churnStep{kind: 'B'}), n)
+			}
+		}
+	}
+	rec(nil, st{})
+	return out
+}
+
 func churnScenarios() []hx.Scenario {
 	var out []hx.Scenario
-	for _, sc := range churnScripts(6) {
+	mk := func(sc []churnStep, wait bool, min int, thoroughOnly bool) {
+		c := churn{steps: sc, wait: wait}
+		out = append(out, hx.Scenario{
+			Name: c.name(), Class: classChurn, ThoroughOnly: thoroughOnly,
+			Opts: mc.Options{Delay: true, MinBound: min, Bound: 2, AutoClock: true, ClockLast: true, Horizon: time.Second, MaxSteps: 20000},
+			Mk:   func() *mc.Exec { return mkChurn(c) },
+		})
+	}
+	// a subscriber that leaves with values still buffered for it, then newcomers
+	for _, sc := range stalledChurnScripts(6) {
 		for _, wait := range []bool{true, false} {
-			c := churn{steps: sc, wait: wait}
 			long := len(sc) > 5
 			min := 2
 			if long {
 				min = 1
 			}
-			out = append(out, hx.Scenario{
-				Name: c.name(), Class: classChurn, ThoroughOnly: long,
-				Opts: mc.Options{Delay: true, MinBound: min, Bound: 2, AutoClock: true, ClockLast: true, Horizon: time.Second, MaxSteps: 20000},
-				Mk:   func() *mc.Exec { return mkChurn(c) },
-			})
+			mk(sc, wait, min, long)
+		}
+	}
+	for _, sc := range churnScripts(6) {
+		for _, wait := range []bool{true, false} {
+			long := len(sc) > 5
+			min := 2
+			if long {
+				min = 1
+			}
+			mk(sc, wait, min, long)
 		}
 	}
 	return out
